@@ -76,7 +76,9 @@ impl<H: Hal, const SIZE: usize, const BUFFER_SIZE: usize> OwningQueue<H, SIZE, B
         Ok(())
     }
 
-    fn pop(&mut self) -> Result<Option<(&[u8], u16)>> {
+    /// Pops the next used buffer, if any. Returns the whole buffer, the number of bytes the device
+    /// claims to have written to it (which is not validated here) and the buffer's token.
+    fn pop(&mut self) -> Result<Option<(&[u8; BUFFER_SIZE], usize, u16)>> {
         let Some(token) = self.queue.peek_used() else {
             return Ok(None);
         };
@@ -96,13 +98,7 @@ impl<H: Hal, const SIZE: usize, const BUFFER_SIZE: usize> OwningQueue<H, SIZE, B
             .try_into()
             .unwrap();
 
-        // The device reports how many bytes it wrote; reject if it claims more than the buffer
-        // size.
-        if len > BUFFER_SIZE {
-            return Err(Error::IoError);
-        }
-
-        Ok(Some((&buffer[0..len], token)))
+        Ok(Some((buffer, len, token)))
     }
 
     /// Checks whether there are any buffers which the device has marked as used so the driver
@@ -120,11 +116,17 @@ impl<H: Hal, const SIZE: usize, const BUFFER_SIZE: usize> OwningQueue<H, SIZE, B
         transport: &mut impl Transport,
         handler: impl FnOnce(&[u8]) -> Result<Option<T>>,
     ) -> Result<Option<T>> {
-        let Some((buffer, token)) = self.pop()? else {
+        let Some((buffer, len, token)) = self.pop()? else {
             return Ok(None);
         };
 
-        let result = handler(buffer);
+        // The device reports how many bytes it wrote; reject if it claims more than the buffer
+        // size. The buffer must still be added back to the queue below: otherwise its descriptor
+        // would be left free, and a device reusing the ID would make us unshare the buffer again.
+        let result = match buffer.get(..len) {
+            Some(data) => handler(data),
+            None => Err(Error::IoError),
+        };
 
         // SAFETY: The buffer was just popped from the queue so it's not in it, and there won't be
         // any other references until next time it's popped.
